@@ -4,3 +4,4 @@ import Drive.Interp
 import Drive.Btdmp
 import Drive.Apbp
 import Drive.Icu
+import Drive.Decode
